@@ -3,3 +3,10 @@ open Just.Props.C07
 #print axioms quote_segment
 #print axioms quote_one_word
 #print axioms quote_injection_free
+#print axioms positional_channel_linewise
+#print axioms positional_channel_index
+#print axioms positional_channel_script
+#print axioms positional_off
+#print axioms export_channel_singular
+#print axioms export_channel_variadic
+#print axioms channels_bind_what_C05_binds
